@@ -25,6 +25,9 @@ var checks = map[string]*check{
 			"T oracle (both succeed inside the window) asserted only in executions without a TIME deviation",
 		},
 		Parts: []part{
+			// one real net/rpc plugin process serving two or three connections at once (reattached clients): every
+			// Dispense reaches a server object of its own connection, whose calls and brokered callbacks work
+			{Name: "several-connections", Kind: "enum", Bin: "e3.test", Test: "TestC06Proc"},
 			{Name: "routing-1id", Kind: "explore", Scen: "mux_route", Inst: inst("single", "single"), Depths: depths([]int{3}, []int{3, 4, 5}), Budget: budget(2*time.Minute, 10*time.Minute)},
 			{Name: "routing-2id", Kind: "explore", Scen: "mux_route", Inst: inst("pairs", "pairs-all"), Depths: depths([]int{2}, []int{2, 3}), Budget: budget(3*time.Minute, 20*time.Minute)},
 			{Name: "concurrent-dispense", Kind: "explore", Scen: "conc_ops", Inst: inst("c06", "c06"), Depths: depths([]int{2}, []int{2, 3}), Budget: budget(2*time.Minute, 10*time.Minute)},
@@ -89,6 +92,8 @@ var checks = map[string]*check{
 			{Name: "with-traffic-single", Kind: "explore", Scen: "grpcmux_seq", Inst: inst("traffic-single", "traffic-single"), Depths: depths([]int{2}, []int{2, 3}), Budget: budget(2*time.Minute, 10*time.Minute)},
 			{Name: "with-traffic-pairs", Kind: "explore", Scen: "grpcmux_seq", Inst: inst("traffic-pairs", "traffic-pairs"), Depths: depths([]int{1}, []int{1, 2}), Budget: budget(3*time.Minute, 15*time.Minute)},
 			// each established id is dialled a second time while its listener is serving
+			// an id accepted again after its first listener was closed (server stopped, AcceptAndServe returned)
+			{Name: "id-reuse", Kind: "explore", Scen: "grpcmux_seq", Inst: inst("reuse", "reuse"), Depths: depths([]int{1}, []int{1, 2}), Budget: budget(2*time.Minute, 10*time.Minute)},
 			{Name: "redial", Kind: "explore", Scen: "grpcmux_seq", Inst: inst("redial", "redial"), Depths: depths([]int{1}, []int{1, 2}), Budget: budget(2*time.Minute, 10*time.Minute)},
 			{Name: "conformance", Kind: "conform", Scen: "grpcmux_seq"},
 		},
@@ -197,6 +202,9 @@ var checks = map[string]*check{
 		},
 		Parts: []part{
 			{Name: "crash-points", Kind: "explore", Scen: "crash_plugin", Depths: depths([]int{2}, []int{2, 3}), Budget: budget(8*time.Minute, 30*time.Minute)},
+			// a real plugin process killed from outside after 0.2 .. 26 s of uptime, seen by the launching client and by a
+			// client reattached to the same process (cmdrunner's pid polling): detection time, calls, Ping, Kill
+			{Name: "real-processes", Kind: "enum", Bin: "e3.test", Test: "TestC03Proc"},
 			{Name: "conformance", Kind: "conform", Scen: "crash_plugin"},
 		},
 	},
